@@ -446,6 +446,16 @@ func ruleOPT3(c *Ctx) {
 		if pt, ok := t.(*types.Pointer); ok && structT != nil && types.Identical(pt.Elem(), structT) {
 			// *Struct case
 			body := &ast.BlockStmt{List: cc.Body}
+			// the whole arm may have been moved into a private method (`dst.joinStruct(src)`)
+			for _, st := range cc.Body {
+				if es, ok := st.(*ast.ExprStmt); ok {
+					if call, ok := ast.Unparen(es.X).(*ast.CallExpr); ok {
+						if h := p.InlineAny(join)(call); h != nil && h.Body() != nil && len(findAll[*ast.IfStmt](h.Body())) > 0 {
+							body = h.Body()
+						}
+					}
+				}
+			}
 			joined := false
 			for _, call := range findAll[*ast.CallExpr](body) {
 				if m, _, _, ok := FlagCall(info, call); ok && m == "Join" {
@@ -454,7 +464,19 @@ func ruleOPT3(c *Ctx) {
 			}
 			c.Oblige("join:*Struct:flags-joined", cc.Pos(), joined, "dst.Flags.Join(src.Flags) missing")
 			for _, ifs := range findAll[*ast.IfStmt](body) {
-				call, ok := ast.Unparen(ifs.Cond).(*ast.CallExpr)
+				cond := ast.Unparen(ifs.Cond)
+				// `if !src.Flags.Has(NonBooleanFlags) { return }` is the early-return form of the outer guard
+				if u, isNot := cond.(*ast.UnaryExpr); isNot && u.Op == token.NOT {
+					if gc, ok := ast.Unparen(u.X).(*ast.CallExpr); ok {
+						if m, _, v, ok := FlagCall(info, gc); ok && m == "Has" && len(ifs.Body.List) == 1 {
+							if _, isRet := ifs.Body.List[0].(*ast.ReturnStmt); isRet {
+								structGuard = v
+							}
+						}
+					}
+					continue
+				}
+				call, ok := cond.(*ast.CallExpr)
 				if !ok {
 					continue
 				}
@@ -551,6 +573,53 @@ func ruleOPT3(c *Ctx) {
 			if nHas == 1 && nF == 1 {
 				getTyped[name] = flagFieldPair{hasV, fld}
 			}
+			// or the arm delegates to a shared helper: `return helper(structOpts, FLAG, structOpts.FIELD)`
+			// where the helper tests Flags.Has(<its flag parameter>) and returns <its value parameter>
+			if nHas == 0 && len(cc.Body) == 1 {
+				if r, ok := cc.Body[0].(*ast.ReturnStmt); ok && len(r.Results) == 1 {
+					if call, ok := ast.Unparen(r.Results[0]).(*ast.CallExpr); ok {
+						if h := p.InlineAny(get)(call); h != nil && h.Obj != nil {
+							hsig := h.Obj.Type().(*types.Signature)
+							var flagV uint64
+							var valFld *types.Var
+							flagIdx, valIdx := -1, -1
+							for i, a := range call.Args {
+								if v, isC := ConstU64(ginfo, a); isC && v != 0 {
+									flagV, flagIdx = v, i
+								}
+								if f := SelField(ginfo, a); f != nil && structFieldOf(p, f) {
+									valFld, valIdx = f, i
+								}
+							}
+							if flagIdx >= 0 && valIdx >= 0 && flagIdx < hsig.Params().Len() && valIdx < hsig.Params().Len() {
+								fp, vp := hsig.Params().At(flagIdx), hsig.Params().At(valIdx)
+								hasOnParam, retParam := false, false
+								InspectNoLit(h.Body(), func(n ast.Node) bool {
+									switch x := n.(type) {
+									case *ast.CallExpr:
+										if sel, ok := ast.Unparen(x.Fun).(*ast.SelectorExpr); ok && sel.Sel.Name == "Has" && len(x.Args) == 1 && IdentObj(h.Info(), x.Args[0]) == fp {
+											hasOnParam = true
+										}
+									case *ast.ReturnStmt:
+										if len(x.Results) == 2 {
+											ast.Inspect(x.Results[0], func(m ast.Node) bool {
+												if id, ok := m.(*ast.Ident); ok && h.Info().Uses[id] == vp {
+													retParam = true
+												}
+												return true
+											})
+										}
+									}
+									return true
+								})
+								if hasOnParam && retParam {
+									getTyped[name] = flagFieldPair{flagV, valFld}
+								}
+							}
+						}
+					}
+				}
+			}
 		}
 	}
 	if !c.Floor("typed non-boolean option cases in Join", len(joinTyped), 4) {
@@ -607,6 +676,29 @@ func ruleOPT3(c *Ctx) {
 		case o != nil && o == p.Lookup("jsonopts", "GetUnknownOption"):
 			getLit = f
 		}
+	}
+	// or named functions assigned to the hooks (`jsonopts.JoinUnknownOption = joinUnknownOption`)
+	for _, f := range p.FuncsIn("json") {
+		if f.Body() == nil {
+			continue
+		}
+		InspectNoLit(f.Body(), func(nd ast.Node) bool {
+			as, ok := nd.(*ast.AssignStmt)
+			if !ok || len(as.Lhs) != 1 || len(as.Rhs) != 1 {
+				return true
+			}
+			fn, _ := IdentObj(f.Info(), as.Rhs[0]).(*types.Func)
+			if fn == nil {
+				return true
+			}
+			switch o := IdentOrSelObj(f.Info(), as.Lhs[0]); {
+			case o != nil && o == p.Lookup("jsonopts", "JoinUnknownOption") && joinLit == nil:
+				joinLit = p.FuncOf(fn)
+			case o != nil && o == p.Lookup("jsonopts", "GetUnknownOption") && getLit == nil:
+				getLit = p.FuncOf(fn)
+			}
+			return true
+		})
 	}
 	if joinLit == nil || getLit == nil {
 		c.Undecide("json.init: JoinUnknownOption/GetUnknownOption", "injection assignments not found")
